@@ -423,6 +423,10 @@ func runC14(c *Ctx) {
 			found++
 			ok := false
 			why := ""
+			lf := lf
+			if w.Parent() != listAdd {
+				lf = factsOf(w.Parent()) // the body moved into a new helper (Add → withLock → add)
+			}
 			for _, f := range lf.FactsAt(w.Block()) {
 				if f.Entails(CmpSpec{A: lenN, B: maxS, Rel: LE, D: -1}) {
 					ok, why = true, f.String()
